@@ -184,7 +184,8 @@ class ServiceDiscovery(object):
                 return self.snl[name]
             except KeyError:
                 pass
-            if 3 + len(name) > self.llc.cfg.get("send-miu", 128):
+            if ((len(name) > 254
+                 or 3 + len(name) > self.llc.cfg.get("send-miu", 128))):
                 # the request can never be sent to the remote device
                 raise err.Error(errno.EMSGSIZE)
             tid = random.choice(self.tids)
